@@ -15,12 +15,15 @@
     the specification ([herm_low], [herm_diag]: explicit hypotheses - the half-sum of
     product_by_order is only valid for adjoint pairs, known finding D9 of C18).
     For the shipped Hermitian algorithm these two hypotheses are PROVED ([C09_sound_main]).
-    Statements are for runs that do not run out of fuel: termination is not proved
-    (DSL/Stratified.v defines the decidable stratification certificate, passed by both shipped
-    algorithms, but not yet the theorem "stratified -> terminates"); the Examples show
-    concrete terminating runs. *)
+    [C09_sound] is stated for runs in which no outcome is the model-internal OutOfFuel; this
+    premise is discharged by [C09_terminates]: for a program carrying the decidable
+    stratification certificate (DSL/Stratified.v; both shipped algorithms carry it) a request at
+    index ix run with fuel >= fuel_bound alg ix never ends with OutOfFuel.
+    [C09_sound_main_total] / [C09_sound_nh_total] are the resulting statements for the shipped
+    algorithms without that premise.  (That a request returns a VALUE rather than a Python
+    exception - no TypeError from the sentinel [one], no RuntimeError - is not proved.) *)
 From Coq Require Import String List ZArith Bool Arith.
-From PV.DSL Require Import Syntax Values Target Compile Interp Exec Laws Sound Main Regular Examples HermMain PropsLemmas.
+From PV.DSL Require Import Syntax Values Target Compile Interp Exec Laws Sound Main Regular Examples HermMain Stratified Terminate PropsLemmas.
 From PV.Gen Require Import Algorithms_gen.
 Import ListNotations.
 Open Scope string_scope.
@@ -104,3 +107,81 @@ Print Assumptions C09_main_regular.
 Theorem C09_nh_regular : regular nonhermitian_alg ["H"] = true.
 Proof. vm_compute. reflexivity. Qed.
 Print Assumptions C09_nh_regular.
+
+(** TERMINATION.  For every stratified program, every world whose scope functions return (a
+    value or an exception) and which provides the inputs named by the "X_0" start values,
+    every fault plan inside the world, every schedule from the initial state: with fuel at
+    least [fuel_bound alg ix] = 4 * (total order of ix + 1) * R(alg) + 8 for each request, no
+    outcome is OutOfFuel. *)
+Theorem C09_terminates :
+  forall (V : Type) (O : vops V) (alg : algorithm) (W : xworld V),
+  stratified alg = true -> fn_total W -> start_inputs_ok alg W ->
+  forall fuel c rs os s',
+    fuel_ok alg fuel rs ->
+    run_all O alg (compile alg) W fuel (init_state alg W c) rs = (os, s') ->
+    Forall (fun o => o <> OutOfFuel) os.
+Proof. exact L_C09_terminates. Qed.
+Print Assumptions C09_terminates.
+
+Theorem C09_terminates_main :
+  forall (V : Type) (O : vops V) (W : xworld V),
+  fn_total W -> mem_string "H" (xw_inputs W) = true ->
+  forall fuel c rs os s',
+    fuel_ok main_alg fuel rs ->
+    run_all O main_alg (compile main_alg) W fuel (init_state main_alg W c) rs = (os, s') ->
+    Forall (fun o => o <> OutOfFuel) os.
+Proof. exact L_C09_terminates_main. Qed.
+Print Assumptions C09_terminates_main.
+
+Theorem C09_terminates_nh :
+  forall (V : Type) (O : vops V) (W : xworld V),
+  fn_total W -> mem_string "H" (xw_inputs W) = true ->
+  forall fuel c rs os s',
+    fuel_ok nonhermitian_alg fuel rs ->
+    run_all O nonhermitian_alg (compile nonhermitian_alg) W fuel (init_state nonhermitian_alg W c) rs = (os, s') ->
+    Forall (fun o => o <> OutOfFuel) os.
+Proof. exact L_C09_terminates_nh. Qed.
+Print Assumptions C09_terminates_nh.
+
+Example C09_terminates_example :
+  stratified main_alg = true /\ stratified nonhermitian_alg = true
+  /\ fn_total (z_world no_faults) /\ mem_string "H" (xw_inputs (z_world no_faults)) = true
+  /\ fuel_bound main_alg (0, 0, [2]) = 92.
+Proof.
+  repeat split; try (vm_compute; reflexivity).
+  intros f args ix. cbn [xw_fn z_world]. unfold z_fn. destruct args as [|[| |x] [|b r]]; discriminate.
+Qed.
+
+(** the two shipped algorithms, without the premise about OutOfFuel *)
+Theorem C09_sound_main_total :
+  forall (V : Type) (O : vops V) (eqv : V -> V -> Prop), vlaws O eqv ->
+  forall (W : xworld V) (sfn : string -> list V -> index -> V),
+  (forall x, In x (xw_inputs W) -> has_at x = false) ->
+  (forall f l l' ix, Forall2 eqv l l' -> eqv (sfn f l ix) (sfn f l' ix)) ->
+  (forall f args ix r, xw_fn W f args ix = Ok r -> eqv (den O r) (sfn f (map (den O) args) ix)) ->
+  (forall a, eqv a (v0 O) -> vis0 O a = true) ->
+  xw_hasoff W = false ->
+  (forall x i n, eqv (vadj O (sfn "diag" [x] (i, i, n))) (sfn "diag" [vadj O x] (i, i, n))) ->
+  fn_total W -> mem_string "H" (xw_inputs W) = true ->
+  forall fuel calls0 rs os s' i tb name ix v,
+    fuel_ok main_alg fuel rs ->
+    run_all O main_alg (compile main_alg) W fuel (init_state main_alg W calls0) rs = (os, s') ->
+    nth_error rs i = Some (tb, name, ix) -> nth_error os i = Some (Ok v) ->
+    forall f w, interp O main_alg (SW O W sfn) f (KN name) ix = Some w -> eqv (den O v) w.
+Proof. exact L_C09_sound_main_total. Qed.
+Print Assumptions C09_sound_main_total.
+
+Theorem C09_sound_nh_total :
+  forall (V : Type) (O : vops V) (eqv : V -> V -> Prop), vlaws O eqv ->
+  forall (W : xworld V) (sfn : string -> list V -> index -> V),
+  (forall x, In x (xw_inputs W) -> has_at x = false) ->
+  (forall f l l' ix, Forall2 eqv l l' -> eqv (sfn f l ix) (sfn f l' ix)) ->
+  (forall f args ix r, xw_fn W f args ix = Ok r -> eqv (den O r) (sfn f (map (den O) args) ix)) ->
+  fn_total W -> mem_string "H" (xw_inputs W) = true ->
+  forall fuel calls0 rs os s' i tb name ix v,
+    fuel_ok nonhermitian_alg fuel rs ->
+    run_all O nonhermitian_alg (compile nonhermitian_alg) W fuel (init_state nonhermitian_alg W calls0) rs = (os, s') ->
+    nth_error rs i = Some (tb, name, ix) -> nth_error os i = Some (Ok v) ->
+    forall f w, interp O nonhermitian_alg (SW O W sfn) f (KN name) ix = Some w -> eqv (den O v) w.
+Proof. exact L_C09_sound_nh_total. Qed.
+Print Assumptions C09_sound_nh_total.
